@@ -64,7 +64,8 @@ Proof. exact split_func_fuel_ok. Qed.
 (* C20_intact, in full.  For every entry point, buffer configuration, initial ID, reader script, ending (not "read
    error io.EOF") and stop position - WITHOUT any hypothesis on sizes - the model of sse.Read / Connection.read
    yields
-     either the whole interpretation firstn' stop (vis (interp mode id (concat chunks) e)),
+     either the whole interpretation firstn' stop (vis (interp mode id (concat chunks) e)) - and then every group fits
+        the limit in the generous reading (may_complete, the oracle's own definition) -
      or, for an offset off in toolong_points L (stream_needs (concat chunks)), the specification's yields for the
         stream up to off, followed by ErrTooLong:
         firstn' stop (vis (snd (run_lines mode (w_init id) (fst (wlines (strip_bom (firstn off stream))))) ++ [YErr ETooLong])),
@@ -76,11 +77,13 @@ Proof. exact split_func_fuel_ok. Qed.
    that completed the previous group is CR LF: splitFunc takes the LF together with the group when it is already in
    the buffer and otherwise leaves it to be skipped by the next call, which depends on the read segmentation (the
    code really behaves so; both are legitimate).  This is the only slack: a group that fits strictly is always
-   delivered (C20_fits_complete / C20_fits_no_toolong_points), one that does not fit generously never is. *)
+   delivered (C20_fits_complete / C20_fits_no_toolong_points), one that does not fit generously never is (the
+   first disjunct carries may_complete).  The statement is exactly the last conjunct of the oracle holds_parse_c20. *)
 Theorem C20_intact :
   forall en bc last_id chunks e stop, ending_ok e ->
-    fst (read_run en bc last_id chunks e stop)
-    = (firstn' stop (vis (en_conn en) (interp (mode_for (en_conn en)) last_id (concat chunks) e)), EndNormal)
+    (may_complete (bound_of en bc) (concat chunks) = true /\
+     fst (read_run en bc last_id chunks e stop)
+     = (firstn' stop (vis (en_conn en) (interp (mode_for (en_conn en)) last_id (concat chunks) e)), EndNormal))
     \/ exists off, In off (toolong_points (bound_of en bc) (stream_needs (concat chunks))) /\
          fst (read_run en bc last_id chunks e stop)
          = (firstn' stop (vis (en_conn en)
@@ -147,7 +150,7 @@ Definition ex_big : bytes := [100;97;116;97;58;32;97;97;97;97;97;97;97;10;10]%N.
 Example C20_ex_intact :
   let s := ex_line ++ [10%N] ++ ex_big in
   let r := read_run EntryRead (mkbc false 0 12) [] [s] CleanEOF None in
-  fitsb 12 s = false /\ toolong_points 12 (stream_needs s) = [9%N] /\
+  fitsb 12 s = false /\ may_complete 12 s = false /\ toolong_points 12 (stream_needs s) = [9%N] /\
   fst r = ([YEv (mkev [] [] [97%N]); YErr ETooLong], EndNormal) /\
   snd (run_lines gosse_read (w_init []) (fst (wlines (strip_bom (firstn 9 s))))) ++ [YErr ETooLong]
   = [YEv (mkev [] [] [97%N]); YErr ETooLong].
